@@ -1701,3 +1701,123 @@ Proof.
                (r_sample r + 0 - 0 * c_size P + t - c_to P <? ns) = true) by lia.
   rewrite E2. cbn. f_equal. lia.
 Qed.
+
+(* ================================================================== *)
+(* Round 4: preprocess_steps                                           *)
+(* ================================================================== *)
+Lemma gather_ext V (src1 src2 : Z -> Z -> V) P cind cols :
+  (forall ch c, src1 ch c = src2 ch c) -> gather V src1 P cind cols = gather V src2 P cind cols.
+Proof.
+  intros H. unfold gather. apply map_ext. intros ch. apply map_ext. intros c.
+  destruct (ch =? c_nc P); [reflexivity|]. now rewrite H.
+Qed.
+
+Lemma chunk_writes_ext V (src1 src2 : Z -> Z -> V) P ci tb i :
+  (forall ch c, src1 ch c = src2 ch c) -> chunk_writes V src1 P ci tb i = chunk_writes V src2 P ci tb i.
+Proof.
+  intros H. unfold chunk_writes. destruct (slice_rows P tb i) as [|r0 rows]; [reflexivity|].
+  cbv zeta. destruct (_ <? _); [|reflexivity]. f_equal. apply map_ext. intros r.
+  unfold chunk_wf. destruct (chan_row ci (r_chan r)); [|reflexivity].
+  destruct (sequence _); [|reflexivity]. cbn. now rewrite (gather_ext V src1 src2 P _ _ H).
+Qed.
+
+Section PP.
+  Variable V : Type.
+  Variable src : Z -> Z -> V.
+  Variables f1 f2 f3 f4 f5 : Z -> Z -> snippet V -> snippet V.
+  Variable choose : Z -> list Z -> Z -> list Z.
+  Variable P : cfg.
+  Notation sp := (c_spikes P).
+  Hypothesis Hns : 1 <= c_ns P.
+  Hypothesis Hsize : 1 <= c_size P.
+  Hypothesis Hto : 0 <= c_to P <= c_L P.
+  Hypothesis Hts : c_to P <= c_size P \/ nchunks P = 1.
+  Hypothesis Hsorted : StronglySorted Z.le (map sp_sample sp).
+  Hypothesis Hchoose : forall i a k, 0 <= k <= zlen a -> NoDup a ->
+    length (choose i a k) = Z.to_nat k /\ NoDup (choose i a k) /\ incl (choose i a k) a.
+  Hypothesis Hmax : 0 <= c_maxwf P.
+  Hypothesis Hchan : Forall (fun s => 0 <= sp_chan s < zlen (c_geom P)) sp.
+  Set Default Proof Using "Hns Hsize Hto Hts Hsorted Hchoose Hmax Hchan".
+
+  Notation T := (table choose P).
+  Notation ST := (sorted_table choose P).
+  Notation pps := (pp_source V src f1 f2 f3 f4 f5 P).
+
+  (* without steps the processed snippet is the recording itself *)
+  Lemma pp_source_nil i ch c : pps [] i ch c = src ch c.
+  Proof using. unfold pp_source, preprocess, raw_snippet. cbn. f_equal. lia. Qed.
+
+  Lemma traces_pp_nil : traces_pp V src f1 f2 f3 f4 f5 choose P [] = traces V src choose P.
+  Proof using.
+    unfold traces_pp, traces, all_writes_pp, all_writes, job_writes. cbn [steps_ok forallb has_step existsb andb negb].
+    cbv zeta. do 3 f_equal. apply map_ext. intros i. unfold chunk_writes_pp.
+    apply chunk_writes_ext. intros ch c. apply pp_source_nil.
+  Qed.
+
+  Lemma chunk_of_sample i s : 0 <= i < nchunks P -> s0 P i <= s < s1 P i -> s / c_size P = i.
+  Proof.
+    intros Hi Hs. pose proof (nchunks_spec P Hns Hsize) as Hn.
+    assert (H0 : s0 P i = i * c_size P) by reflexivity.
+    assert (H1 : s1 P i <= (i + 1) * c_size P).
+    { unfold s1, s0. destruct (i =? nchunks P - 1) eqn:E; [|lia].
+      apply Z.eqb_eq in E. replace (i + 1) with (nchunks P) by lia. lia. }
+    symmetry. apply Z.div_unique with (r := s - i * c_size P); [left; lia|lia].
+  Qed.
+
+  Definition canon_pp (steps : list Z) (r : row) : Z * wf V :=
+    canon_write V (pps steps (r_sample r / c_size P)) P r.
+
+  Lemma chunk_writes_pp_canon steps tb i : 0 <= i < nchunks P ->
+    StronglySorted Z.le (map r_sample tb) -> Forall (valid_row P) tb ->
+    chunk_writes_pp V src f1 f2 f3 f4 f5 P steps (cidx P) tb i =
+    Some (map (canon_pp steps) (slice_rows P tb i)).
+  Proof.
+    intros Hi Hs Hv. unfold chunk_writes_pp.
+    rewrite (chunk_writes_canon V (pps steps i) P Hns Hsize Hto Hts tb i Hi Hs Hv). f_equal.
+    apply map_ext_in. intros r Hr.
+    destruct (slice_rows_in P Hns Hsize Hto Hts tb i r Hs Hr) as [_ Hrg].
+    unfold canon_pp. now rewrite (chunk_of_sample i (r_sample r) Hi Hrg).
+  Qed.
+
+  Lemma all_writes_pp_canon steps tb : StronglySorted Z.le (map r_sample tb) -> Forall (valid_row P) tb ->
+    all_writes_pp V src f1 f2 f3 f4 f5 P steps (cidx P) tb = Some (map (canon_pp steps) tb).
+  Proof.
+    intros Hs Hv. unfold all_writes_pp.
+    rewrite (sequence_map_some _ (fun i => map (canon_pp steps) (slice_rows P tb i))).
+    - cbn [option_map]. f_equal.
+      rewrite <- (map_map (slice_rows P tb) (map (canon_pp steps))), <- concat_map.
+      f_equal. apply slices_partition; auto. eapply Forall_impl; [|exact Hv]. intros r [Hr _]. lia.
+    - intros i Hi. apply in_zrange in Hi. pose proof (nchunks_spec P Hns Hsize).
+      rewrite Z2Nat.id in Hi by lia. now apply chunk_writes_pp_canon.
+  Qed.
+
+  (* with any admissible step list no job raises, and row r of the traces is the window of table row r
+     gathered from the processed snippet of the chunk that contains its sample *)
+  Lemma traces_pp_row steps r : steps_ok steps = true -> (r < length T)%nat ->
+    exists mem, traces_pp V src f1 f2 f3 f4 f5 choose P steps = Some mem /\ length mem = length T /\
+      let row := nth r ST drow in
+      r_wfi row = Z.of_nat r /\ valid_row P row /\
+      nth r mem None = Some (window V (pps steps (r_sample row / c_size P)) P (r_sample row) (r_chan row)).
+  Proof.
+    intros Hok Hr. unfold traces_pp. rewrite Hok. cbv zeta.
+    pose proof (table_ascending choose P Hns Hsize Hto Hts Hsorted Hchoose Hmax Hchan) as Hasc.
+    pose proof (table_valid choose P Hns Hsize Hto Hts Hsorted Hchoose Hmax Hchan) as Hval.
+    rewrite (all_writes_pp_canon steps T Hasc Hval). cbn [option_map].
+    eexists. split; [reflexivity|].
+    split; [rewrite aw_length; unfold mem0; apply repeat_length|].
+    cbv zeta. set (row := nth r ST drow).
+    pose proof (sorted_perm choose P Hns Hsize Hto Hts Hsorted Hchoose Hmax Hchan) as Hp.
+    assert (Hin : In row T).
+    { eapply Permutation_in; [exact Hp|]. apply nth_In. now rewrite (Permutation_length Hp). }
+    pose proof (sorted_row_wfi choose P Hns Hsize Hto Hts Hsorted Hchoose Hmax Hchan r Hr) as Hw. fold row in Hw.
+    split; [exact Hw|]. split; [rewrite Forall_forall in Hval; now apply Hval|].
+    assert (Hnd : NoDup (map (fun e : Z * wf V => Z.to_nat (fst e)) (map (canon_pp steps) T))).
+    { pose proof (table_keys_nodup V src choose P Hns Hsize Hto Hts Hsorted Hchoose Hmax Hchan) as H.
+      rewrite map_map in H |- *. exact H. }
+    pose proof (aw_nth_in V (map (canon_pp steps) T) (mem0 V T) (canon_pp steps row) Hnd
+                  (in_map (canon_pp steps) _ _ Hin)) as H.
+    unfold canon_pp in H at 1 2. cbn [canon_write fst snd] in H. rewrite Hw, Nat2Z.id in H. apply H.
+    unfold mem0. rewrite repeat_length. exact Hr.
+  Qed.
+End PP.
+Set Default Proof Using "Type".
